@@ -2,6 +2,7 @@ import RModel.Base.Bytes
 import RModel.Base.Utf8
 import RModel.Model.Edits
 import RModel.Gen.ExitCodes
+import RModel.Gen.PanicGuards
 /-
   C16 — index / slice / arithmetic models of the data-dependent panic sites.
 
@@ -9,6 +10,12 @@ import RModel.Gen.ExitCodes
   slice index out of range, `start > end`, `str` index not on a character boundary, `u64`
   subtraction underflow (overflow-checked builds).  Nothing here computes *what* the code returns
   beyond what is needed to decide *whether* it panics.
+
+  Each repaired site has three definitions: `…Old` (the unchecked shape before the fix commit, kept with its
+  witnesses), the checked shape, and `…Cur` = whichever of the two the source has NOW, selected by the flag the
+  translator extracts into `Gen.PanicGuards` (it looks for `.get(`, `saturating_sub`, the guards).  The totality
+  theorems are stated about `…Cur`: reverting a fix flips the flag, the theorem stops compiling, and the driver
+  (which also runs `…Cur`) predicts the panic again.
 -/
 open B
 
@@ -105,7 +112,7 @@ def sliceOk (bytes : Bytes) (a b : Nat) : Prop := a ≤ b ∧ b ≤ bytes.length
 /-- `match_col < line_string.len() && line_string[match_col..].starts_with(&content)` followed by the three slices
     `[..match_col]`, `[match_col + content.len()..]`; `line` is the *lossily decoded* line, `col` the byte column in
     the raw line.  `none` = panic. -/
-def lineAfter (line : Bytes) (col : Nat) (content : Bytes) (repl : Bytes) : Option Bytes :=
+def lineAfterOld (line : Bytes) (col : Nat) (content : Bytes) (repl : Bytes) : Option Bytes :=
   if col < line.length then
     match Edits.sliceStr line col line.length with          -- line_string[match_col..]
     | none => none
@@ -125,9 +132,77 @@ def lineAfterChecked (line : Bytes) (col : Nat) (content : Bytes) (repl : Bytes)
     if content.isPrefixOf tail ∧ col < line.length then some (line.take col ++ repl ++ tail.drop content.length)
     else some line
 
+/-- the code as it is now -/
+def lineAfterCur (line : Bytes) (col : Nat) (content repl : Bytes) : Option Bytes :=
+  if Gen.PanicGuards.lineAfterChecked then lineAfterChecked line col content repl else lineAfterOld line col content repl
+
 /-- what `generate_hunks` passes: the raw line decoded lossily, the column measured in the raw line -/
+def lineAfterOfRawOld (raw : Bytes) (col : Nat) (content repl : Bytes) : Option Bytes :=
+  lineAfterOld (Utf8.lossy raw) col content repl
+
 def lineAfterOfRaw (raw : Bytes) (col : Nat) (content repl : Bytes) : Option Bytes :=
-  lineAfter (Utf8.lossy raw) col content repl
+  lineAfterCur (Utf8.lossy raw) col content repl
+
+/-! ### the same raw column reused: ambiguity/resolver.rs, preview/diff.rs, preview/matches.rs -/
+
+/-- `if match_pos > 0 { &line[..match_pos] } else { "" }` -/
+def prefixOld (line : Bytes) (pos : Nat) : Option Bytes :=
+  if pos > 0 then Edits.sliceStr line 0 pos else some []
+
+/-- `line.get(..match_pos).unwrap_or("")`; also the shape of every repaired slice in the colour renderers
+    (`line.get(a..b).unwrap_or("")`) -/
+def sliceOrEmpty (line : Bytes) (a b : Nat) : Option Bytes := some ((Edits.sliceStr line a b).getD [])
+
+def resolverPrefixCur (line : Bytes) (pos : Nat) : Option Bytes :=
+  if Gen.PanicGuards.resolverPrefixChecked then sliceOrEmpty line 0 pos else prefixOld line pos
+
+/-- preview/diff.rs render_diff, several hunks on one line:
+    `if col < after_line.len() && after_line[col..].starts_with(&hunk.content) { after_line.replace_range(col..end, …) }` -/
+def diffStepOld (afterLine : Bytes) (col : Nat) (content repl : Bytes) : Option Bytes :=
+  if col < afterLine.length then
+    match Edits.sliceStr afterLine col afterLine.length with
+    | none => none
+    | some tail =>
+      if content.isPrefixOf tail then Edits.replaceRange afterLine col (col + content.length) repl
+      else some afterLine
+  else some afterLine
+
+/-- `after_line.get(col..).is_some_and(|tail| !tail.is_empty() && tail.starts_with(..))` then `replace_range`:
+    the end `col + content.len()` closes a prefix that is itself a `String` (hypothesis `hend` of the theorem) -/
+def diffStepChecked (afterLine : Bytes) (col : Nat) (content repl : Bytes) : Option Bytes :=
+  match Edits.sliceStr afterLine col afterLine.length with
+  | none => some afterLine
+  | some tail =>
+    if !tail.isEmpty && content.isPrefixOf tail then Edits.replaceRange afterLine col (col + content.length) repl
+    else some afterLine
+
+def diffStepCur (afterLine : Bytes) (col : Nat) (content repl : Bytes) : Option Bytes :=
+  if Gen.PanicGuards.diffAfterLineChecked then diffStepChecked afterLine col content repl else diffStepOld afterLine col content repl
+
+/-- preview/matches.rs (colour): `&line_before[..col]`, `[col..actual_end]`, `[actual_end..]` -/
+def matchesSlicesOld (line : Bytes) (col stop : Nat) : Option (Bytes × Bytes × Bytes) :=
+  let actualEnd := min stop line.length
+  match (if col > 0 then Edits.sliceStr line 0 col else some []) with
+  | none => none
+  | some a =>
+    if col < line.length then
+      match Edits.sliceStr line col actualEnd with
+      | none => none
+      | some b =>
+        if actualEnd < line.length then
+          match Edits.sliceStr line actualEnd line.length with
+          | none => none
+          | some c => some (a, b, c)
+        else some (a, b, [])
+    else some (a, [], [])
+
+def matchesSlicesChecked (line : Bytes) (col stop : Nat) : Option (Bytes × Bytes × Bytes) :=
+  let actualEnd := min stop line.length
+  some ((Edits.sliceStr line 0 col).getD [], (Edits.sliceStr line col actualEnd).getD [], (Edits.sliceStr line actualEnd line.length).getD [])
+
+def matchesSlicesCur (line : Bytes) (col stop : Nat) : Option (Bytes × Bytes × Bytes) :=
+  if Gen.PanicGuards.matchesLineChecked && Gen.PanicGuards.diffHighlightChecked then matchesSlicesChecked line col stop
+  else matchesSlicesOld line col stop
 
 /-! ### coercion.rs::replace_case_insensitive with an abstract lower-casing -/
 
@@ -158,8 +233,45 @@ def ciLoop (text textLower pattern patLower repl : Bytes) : Nat → Nat → Byte
         | none => .panic
         | some before => ciLoop text textLower pattern patLower repl fuel absEnd (acc ++ before ++ repl)
 
-def replaceCI (lower : Bytes → Bytes) (text pattern repl : Bytes) : CIOutcome :=
+def replaceCIOld (lower : Bytes → Bytes) (text pattern repl : Bytes) : CIOutcome :=
   ciLoop text (lower text) pattern (lower pattern) repl (text.length + 2) 0 []
+
+/-- the repaired loop: every slice is `get(..)`, a miss returns the text unchanged -/
+def ciLoopChecked (text textLower pattern patLower repl : Bytes) : Nat → Nat → Bytes → CIOutcome
+  | 0, _, _ => .diverges
+  | fuel + 1, lastEnd, acc =>
+    match (Edits.sliceStr textLower lastEnd textLower.length).bind (fun rest => B.find rest patLower) with
+    | none =>
+      match Edits.sliceStr text lastEnd text.length with           -- text.get(last_end..)
+      | none => .done text
+      | some tail => .done (acc ++ tail)
+    | some start =>
+      let absStart := lastEnd + start
+      let absEnd := absStart + pattern.length
+      match Edits.sliceStr text lastEnd absStart with              -- text.get(last_end..absolute_start)
+      | none => .done text
+      | some before => ciLoopChecked text textLower pattern patLower repl fuel absEnd (acc ++ before ++ repl)
+
+/-- `replace_case_insensitive` as repaired: empty / length-changing lower-casing returns the text unchanged -/
+def replaceCIChecked (lower : Bytes → Bytes) (text pattern repl : Bytes) : CIOutcome :=
+  let tl := lower text
+  let pl := lower pattern
+  if pl.isEmpty || tl.length ≠ text.length || pl.length ≠ pattern.length then .done text
+  else ciLoopChecked text tl pattern pl repl (text.length + 2) 0 []
+
+def replaceCICur (lower : Bytes → Bytes) (text pattern repl : Bytes) : CIOutcome :=
+  if Gen.PanicGuards.ciEmptyAndLengthGuard && Gen.PanicGuards.ciSlicesChecked then replaceCIChecked lower text pattern repl
+  else replaceCIOld lower text pattern repl
+
+/-- coercion.rs::apply_coercion: `&container[pos..pos + old_pattern.len()]` (old) / `.get(..)?` (now: `None` result) -/
+def patternPartOld (container : Bytes) (pos plen : Nat) : Option (Option Bytes) :=
+  (Edits.sliceStr container pos (pos + plen)).map some
+
+def patternPartChecked (container : Bytes) (pos plen : Nat) : Option (Option Bytes) :=
+  some (Edits.sliceStr container pos (pos + plen))
+
+def patternPartCur (container : Bytes) (pos plen : Nat) : Option (Option Bytes) :=
+  if Gen.PanicGuards.coercionPartChecked then patternPartChecked container pos plen else patternPartOld container pos plen
 
 /-- a lower-casing that is ASCII on ASCII and maps U+0130 `İ` (C4 B0) to `i̇` (69 CC 87): enough for the witness -/
 def lowerDemo : Bytes → Bytes
@@ -170,10 +282,13 @@ def lowerDemo : Bytes → Bytes
 /-! ### lock.rs::acquire — age of an existing lock -/
 
 /-- `current_time - timestamp` on `u64` in an overflow-checked build -/
-def lockAge (now ts : Nat) : Option Nat := if ts ≤ now then some (now - ts) else none
+def lockAgeOld (now ts : Nat) : Option Nat := if ts ≤ now then some (now - ts) else none
 
 /-- repaired: `current_time.saturating_sub(timestamp)` -/
 def lockAgeSat (now ts : Nat) : Nat := now - ts
+
+def lockAgeCur (now ts : Nat) : Option Nat :=
+  if Gen.PanicGuards.lockAgeSaturating then some (lockAgeSat now ts) else lockAgeOld now ts
 
 def isDigitChar (c : UInt8) : Bool := isDigit c
 
@@ -197,9 +312,14 @@ def lockTimestamp (content : Bytes) : Option Nat :=
   | [_, b] => some ((parseU64 b).getD 0)
   | _ => none
 
+def lockPanicsOld (content : Bytes) (now : Nat) : Bool :=
+  match lockTimestamp content with
+  | some ts => (lockAgeOld now ts).isNone
+  | none => false
+
 def lockPanics (content : Bytes) (now : Nat) : Bool :=
   match lockTimestamp content with
-  | some ts => (lockAge now ts).isNone
+  | some ts => (lockAgeCur now ts).isNone
   | none => false
 
 /-! ### scanner.rs::extract_immediate_context -/
@@ -210,6 +330,106 @@ def extractContextSlices (line : Bytes) (s e : Nat) : Option (Bytes × Bytes) :=
   match Edits.sliceStr line 0 s, Edits.sliceStr line 0 e with
   | some a, some b => some (a, b)
   | _, _ => none
+
+/-! ### apply.rs::apply_content_edits_with_content — the loop as the source has it now -/
+
+def applyEditsCur (orig : Bytes) (es : List Edits.Edit) : Except Edits.Err Bytes :=
+  Edits.applyEditsG (Gen.PanicGuards.applyOrigChecked && Gen.PanicGuards.applyModifiedChecked) orig es
+
+/-! ### case_model.rs::generate_variant_map_internal — the keys of the variant map -/
+
+/-- keys inserted by the style loop (`rendered` = the search term in every requested style / plural form) plus the
+    "exact match" entry for the term as typed (`exact` = whether that branch is taken) -/
+def variantKeysOld (rendered : List Bytes) (search : Bytes) (exact : Bool) : List Bytes :=
+  rendered ++ (if exact then [search] else [])
+
+/-- now: `if search_variant.is_empty() { continue; }` and `&& !search.is_empty()` -/
+def variantKeysChecked (rendered : List Bytes) (search : Bytes) (exact : Bool) : List Bytes :=
+  rendered.filter (fun v => !v.isEmpty) ++ (if exact && !search.isEmpty then [search] else [])
+
+def variantKeysCur (rendered : List Bytes) (search : Bytes) (exact : Bool) : List Bytes :=
+  if Gen.PanicGuards.emptyVariantSkipped then variantKeysChecked rendered search exact else variantKeysOld rendered search exact
+
+/-- a regex match of the alternation of `variants` in `bytes`: the matched text is one of the variants -/
+def IsMatchOf (variants : List Bytes) (bytes : Bytes) (m : Nat × Nat) : Prop :=
+  m.1 ≤ m.2 ∧ m.2 ≤ bytes.length ∧ (bytes.take m.2).drop m.1 ∈ variants
+
+/-! ### case_constraints.rs::has_consecutive_uppercase -/
+
+/-- the slices `chars[start..start + len]` for `len` in `2..=bound` are all in range of a `Vec<char>` of `n` chars -/
+def upperRunOk (n start bound : Nat) : Bool := (List.range (bound + 1)).all (fun len => decide (len < 2 ∨ start + len ≤ n))
+
+/-- before: `bound = sequence.len()` — the BYTE length of the run -/
+def upperRunOld (n start _i byteLen : Nat) : Bool := upperRunOk n start byteLen
+/-- now: `bound = i - start` — its length in characters -/
+def upperRunChecked (n start i _byteLen : Nat) : Bool := upperRunOk n start (i - start)
+
+def upperRunCur (n start i byteLen : Nat) : Bool :=
+  if Gen.PanicGuards.upperRunCountsChars then upperRunChecked n start i byteLen else upperRunOld n start i byteLen
+
+/-! ### scanner.rs::process_file_content — literal mode of `replace` -/
+
+inductive LitOutcome where
+  | done (count : Nat)
+  | rejected            -- `create_simple_plan` returns Err("invalid pattern …") (status 2)
+  | diverges
+  deriving DecidableEq, Repr
+
+/-- `while let Some(pos) = line[search_start..].find(pattern) { …; search_start = start + pattern.len() }` -/
+def litLoop (line pattern : Bytes) : Nat → Nat → Nat → LitOutcome
+  | 0, _, _ => .diverges
+  | fuel + 1, searchStart, n =>
+    match B.find (line.drop searchStart) pattern with
+    | none => .done n
+    | some pos => litLoop line pattern fuel (searchStart + pos + pattern.length) (n + 1)
+
+def literalOld (line pattern : Bytes) : LitOutcome := litLoop line pattern (line.length + 2) 0 0
+
+def literalChecked (line pattern : Bytes) : LitOutcome :=
+  if pattern.isEmpty then .rejected else litLoop line pattern (line.length + 2) 0 0
+
+def literalCur (line pattern : Bytes) : LitOutcome :=
+  if Gen.PanicGuards.emptyLiteralRejected then literalChecked line pattern else literalOld line pattern
+
+/-! ### output.rs::format_json — `json!({ … "plan": self.plan })` -/
+
+/-- `ser` = result of serialising the plan (`none` = serde error: a path that is not UTF-8).
+    before: `json!` unwraps it; now: `to_value(..).unwrap_or(Null)`.  Outer `none` = panic. -/
+def planValueOld {α} (ser : Option α) : Option (Option α) := ser.map some
+def planValueChecked {α} (ser : Option α) : Option (Option α) := some ser
+def planValueCur {α} (ser : Option α) : Option (Option α) :=
+  if Gen.PanicGuards.jsonPlanChecked then planValueChecked ser else planValueOld ser
+
+/-! ### acronym.rs::find_longest_match -/
+
+/-- the trie walk: `next` = child lookup for the byte cast to a char, `isEnd` = node ends an acronym.
+    Returns `last_match_end`.  `guard` = the `if !bytes[i].is_ascii() { break; }` added by the fix. -/
+def acrLoop {σ} (guard : Bool) (next : σ → UInt8 → Option σ) (isEnd : σ → Bool) (bytes : Bytes) :
+    Nat → Nat → σ → Option Nat → Option Nat
+  | 0, _, _, last => last
+  | fuel + 1, i, node, last =>
+    match bytes[i]? with
+    | none => last
+    | some b =>
+      if guard && decide (128 ≤ b.toNat) then last
+      else
+        match next node b with
+        | none => last
+        | some node' => acrLoop guard next isEnd bytes fuel (i + 1) node' (if isEnd node' then some (i + 1) else last)
+
+/-- `last_match_end.map(|end| &text[start_pos..end])`: outer `none` = panic -/
+def findLongestG {σ} (guard : Bool) (next : σ → UInt8 → Option σ) (isEnd : σ → Bool) (root : σ) (text : Bytes) (start : Nat) :
+    Option (Option Bytes) :=
+  match acrLoop guard next isEnd text (text.length - start) start root none with
+  | none => some none
+  | some e => (Edits.sliceStr text start e).map some
+
+def findLongestOld {σ} := @findLongestG σ false
+def findLongestCur {σ} := @findLongestG σ Gen.PanicGuards.acronymAsciiGuard
+
+/-- a fact about every `str`: a continuation byte never follows an ASCII byte -/
+def ContAfterNonAscii (text : Bytes) : Prop :=
+  ∀ j b c, text[j]? = some b → text[j + 1]? = some c → Edits.isCont c = true → 128 ≤ b.toNat
 
 /-! ### main.rs — exit status -/
 
